@@ -58,6 +58,11 @@ def ray_requests(r, solve_tasks, sols, nray, honor):
         m = s["meta"]
         nd = len(m["shape"])
         axes = [m["d"][a] * np.arange(m["shape"][a] + 1) for a in range(nd)]
+        # the kernels take absolute node axes: give every axis its own origin (equal origins hide an axis mix-up)
+        if r.uniform() < 0.6:
+            og = [float(x) for x in r.choice([-6.0, 20.0, 0.25, 12.5, -100.0, 3.0], size=nd, replace=False)]
+        else:
+            og = [0.0] * nd
         for kk in range(nray):
             ecls = str(r.choice(["cells", "cells", "line", "boundary", "corner", "source", "near"]))
             if m.get("elongated") and kk < 3:
@@ -86,13 +91,15 @@ def ray_requests(r, solve_tasks, sols, nray, honor):
             diag = float(np.sqrt(sum(((m["shape"][a] + 1) * m["d"][a]) ** 2 for a in range(nd))))
             default_ms = max(int(2.0 * diag / step), 2)
             ms = default_ms if r.uniform() < 0.7 else int(r.choice([1, 2, 3, 5, 10]))
-            t = {"op": f"ray{nd}d", "z": axes[0], "x": axes[1], "zgrad": o["grad"][..., 0], "xgrad": o["grad"][..., 1],
-                 "zend": end[0], "xend": end[1], "zsrc": m["src"][0], "xsrc": m["src"][1], "stepsize": step,
+            ea = [end[a] + og[a] for a in range(nd)]
+            sa = [m["src"][a] + og[a] for a in range(nd)]
+            t = {"op": f"ray{nd}d", "z": axes[0] + og[0], "x": axes[1] + og[1], "zgrad": o["grad"][..., 0], "xgrad": o["grad"][..., 1],
+                 "zend": ea[0], "xend": ea[1], "zsrc": sa[0], "xsrc": sa[1], "stepsize": step,
                  "max_step": ms, "honor_grid": int(honor), "timeout": 5.0,
                  "meta": {"solve": m, "end": end, "endcls": ecls, "step": step, "max_step": ms, "default_budget": ms == default_ms,
-                          "tt": o["tt"]}}
+                          "tt": o["tt"], "origin": og, "src_abs": sa, "end_abs": ea}}
             if nd == 3:
-                t.update(y=axes[2], ygrad=o["grad"][..., 2], yend=end[2], ysrc=m["src"][2])
+                t.update(y=axes[2] + og[2], ygrad=o["grad"][..., 2], yend=ea[2], ysrc=sa[2])
             out.append(t)
     return out
 
@@ -125,10 +132,10 @@ def judge(ck, t, o, mode, honor):
             try:
                 rr = C.run_impl([dict({k: v for k, v in t.items() if k != "meta"}, op="ray_status", timeout=10.0)], "interp")[0]
                 if rr["status"] == "ok" and len(rr["ray"]) >= 3:
-                    last = rr["ray"][-3:]
+                    last = np.asarray(rr["ray"][-3:]) - np.array(m.get("origin", [0.0] * nd))
                     ext_ = np.array([sm["shape"][a] * sm["d"][a] for a in range(nd)])
                     same = np.allclose(last[0], last[-1], atol=1e-12)
-                    onb = bool(np.any(np.abs(last[-1]) < 1e-12) or np.any(np.abs(last[-1] - ext_) < 1e-12))
+                    onb = bool(np.any(np.abs(last[-1]) < 1e-9) or np.any(np.abs(last[-1] - ext_) < 1e-9))
                     stuck = bool(same and onb)
             except Exception:  # noqa: BLE001
                 stuck = None
@@ -139,15 +146,18 @@ def judge(ck, t, o, mode, honor):
         ck.violation(f"unexpected outcome {o['status']} for an end point inside the grid", pl)
         return
     ray = np.asarray(o["ray"])[::-1]          # source first
-    src = np.array(sm["src"], dtype=float)
-    end = np.array(m["end"], dtype=float)
+    og = np.array(m.get("origin", [0.0] * nd), dtype=float)
+    src = np.array(m.get("src_abs", sm["src"]), dtype=float)
+    end = np.array(m.get("end_abs", m["end"]), dtype=float)
+    otol = 1e-12 * (1.0 + float(np.abs(og).max()))
     if not (np.array_equal(ray[0], src) and np.array_equal(ray[-1], end)):
         ck.violation("polyline does not start exactly at the source / end exactly at the end point", pl)
         return
     if len(ray) > t["max_step"] + 1 or len(ray) != o["count"] + 1:
         ck.violation("truncated or over-long ray", pl)
     ext = np.array([sm["shape"][a] * sm["d"][a] for a in range(nd)])
-    if (ray < -1e-12).any() or (ray > ext + 1e-12).any() or not np.isfinite(ray).all():
+    rel = ray - og
+    if (rel < -otol).any() or (rel > ext + otol).any() or not np.isfinite(ray).all():
         ck.violation("ray vertex outside the grid", pl)
         return
     if not honor:
@@ -155,7 +165,7 @@ def judge(ck, t, o, mode, honor):
         if (seg > t["stepsize"] * (1 + 1e-9) + 1e-12).any():
             ck.violation("consecutive vertices more than one step apart", dict(pl, max_seg=float(seg.max()), step=t["stepsize"]))
     else:
-        inner = ray[1:-1]
+        inner = rel[1:-1]
         if len(inner):
             d = np.array(sm["d"])
             frac = np.abs(inner / d - np.round(inner / d)) * d
